@@ -102,3 +102,70 @@ pub fn env_string(e: &EnvStr) -> Option<String> {
     }
     Some(String::from_utf8_lossy(&e.b[..e.len.min(2)]).to_string())
 }
+
+// ---- address strings --------------------------------------------------------------------
+
+pub const ALEN: usize = 8;
+
+#[derive(Clone, Copy, Debug)]
+pub struct Addr {
+    pub b: [u8; ALEN],
+}
+
+pub fn draw_addr<S: Src>(s: &mut S) -> Addr {
+    let mut b = [0u8; ALEN];
+    let mut i = 0;
+    while i < ALEN {
+        // the characters the address syntax distinguishes, plus a letter and a digit
+        b[i] = match s.below(10) {
+            0 => b't',
+            1 => b'c',
+            2 => b'p',
+            3 => b':',
+            4 => b'u',
+            5 => b'n',
+            6 => b'i',
+            7 => b'x',
+            8 => b'@',
+            _ => b';',
+        };
+        i += 1;
+    }
+    Addr { b }
+}
+
+pub const SCHEME_NONE: u8 = 0;
+pub const SCHEME_TCP: u8 = 1;
+pub const SCHEME_ABSTRACT: u8 = 2;
+pub const SCHEME_UNIX: u8 = 3;
+
+fn starts(b: &[u8; ALEN], p: &[u8]) -> bool {
+    let mut i = 0;
+    while i < p.len() {
+        if b[i] != p[i] {
+            return false;
+        }
+        i += 1;
+    }
+    true
+}
+
+/// scheme of the address and the (start, end) of the part handed to the socket constructor
+pub fn classify(a: &Addr) -> (u8, usize, usize) {
+    let upto_semicolon = |from: usize| {
+        let mut e = from;
+        while e < ALEN && a.b[e] != b';' {
+            e += 1;
+        }
+        e
+    };
+    if starts(&a.b, b"tcp:") {
+        (SCHEME_TCP, 4, ALEN)
+    } else if starts(&a.b, b"unix:@") {
+        (SCHEME_ABSTRACT, 6, upto_semicolon(6))
+    } else if starts(&a.b, b"unix:") {
+        (SCHEME_UNIX, 5, upto_semicolon(5))
+    } else {
+        (SCHEME_NONE, 0, 0)
+    }
+}
